@@ -16,6 +16,11 @@ Three oracle layers per execution
  (iii) a boring reference propagation (plain list kept sorted best-first) -> identical per-graph deltas,
        counters, max_delta, final activations and pop trace; evaluated on cases that passed (i) and (ii).
 
+Further legs: "arms" (hop distance over two paths of different length), "warm cache" (slice caps vs. an earlier call
+without them), "keyword holders" (who holds which label/tag is enumerated: keywords unique, shared by several nodes,
+doubled on one node) and "call histories" (every short sequence of calls over the active-graph lists of a two-graph
+store with the result cache on; oracle = the same call made cold).
+
 Differences from DESIGN.md "C12": the "loose" pop budget is 128 instead of the engine default 10^4 (LOOSE_Q below);
 one more text (all three nodes) and two more config dimensions (slice caps looser than the config value, a second
 active graph); the accumulator is observed too (`t1.defaultdict`), which makes activation values checkable.
@@ -337,8 +342,11 @@ def params(dev: dict) -> dict:
     return P
 
 
-def make_ctx(dev: dict, cache: bool = False):
+def make_ctx(dev: dict, cache=False, cache_entries: int = 64):
+    """cache: False (stage cache off) | True / "lru" (t1.cache, the legacy LRU) | "bytes" (perf.t1.cache, size-aware)"""
     P = params(dev)
+    if cache is True:
+        cache = "lru"
     cfg = Config()
     decay = {"mode": "exp_floor", "rate": 0.6, "floor": 0.05} if P["decay"] == "exp" else {"mode": "attn_quad", "alpha": 0.8}
     cfg.t1 = {
@@ -350,7 +358,8 @@ def make_ctx(dev: dict, cache: bool = False):
         "queue_budget": P["queue"],
         "radius_cap": P["radius"],
         "relax_cap": P["relax"],
-        "cache": ({"enabled": True, "max_entries": 64, "ttl_s": 300} if cache else {"enabled": False, "max_entries": 0, "ttl_s": 0}),
+        "cache": ({"enabled": True, "max_entries": cache_entries, "ttl_s": 300} if cache == "lru"
+                  else {"enabled": False, "max_entries": 0, "ttl_s": 0}),
     }
     if P["perf"] != "off":
         t1p = {"caps": {}}
@@ -363,6 +372,11 @@ def make_ctx(dev: dict, cache: bool = False):
         cfg.perf = {"enabled": True, "metrics": {"report_memory": True}, "t1": t1p}
     else:
         cfg.perf = {"enabled": False}
+    if cache == "bytes":
+        # the size-aware result cache sits behind the perf gate; with no perf caps set the gate changes nothing else
+        if P["perf"] == "off":
+            cfg.perf = {"enabled": True, "t1": {}}
+        cfg.perf["t1"]["cache"] = {"max_entries": cache_entries, "max_bytes": 1 << 20}
     ctx = types.SimpleNamespace(cfg=cfg, config=cfg, turn_id="1", agent_id="A")
     sb = {}
     if P["slice_iters"] is not None:
@@ -380,6 +394,33 @@ def make_ctx(dev: dict, cache: bool = False):
 ARM_NODES = [("s", "seed", None), ("a", "aa", None), ("b", "bb", None), ("c", "cc", None), ("v", "vv", None), ("w", "ww", None)]
 ARM_EDGES = [("s", "a"), ("a", "b"), ("b", "v"), ("s", "c"), ("c", "v"), ("v", "w")]
 ARM_TEXTS = ["seed", "seed and cc"]
+
+# family "keyword holders": who holds which keyword is enumerated instead of fixed.  Every assignment of a label from a
+# 3-label alphabet (two of them equal up to case) to the three nodes x a tag list on two of them: keywords unique,
+# shared by two or three nodes (label/label, label/tag, tag/tag, differing in case only), held twice by one node
+# (label == own tag, tag listed twice).  "seeds exactly the nodes whose label or tag occurs in the text" quantifies
+# over nodes, so every holder of a matched keyword is a seed.
+KW_LABELS = ["apple", "Apple", "pear"]
+KW_TAGS_N3 = [None, ["APPLE"], ["Pear", "pear"]]
+KW_TAGS_N1 = [None, ["apple"]]
+KW_TEXTS = ["zzz", "an APPLE a day", "pineapple and PEARS"]
+
+
+def keyword_nodesets():
+    out = []
+    for l3, l1, l2 in itertools.product(KW_LABELS, repeat=3):
+        for t3 in KW_TAGS_N3:
+            for t1 in KW_TAGS_N1:
+                out.append([("n3", l3, t3), ("n1", l1, t1), ("n2", l2, None)])      # same ids / insertion order as NODES
+    return out
+
+
+# family "call histories": the stage keeps a process-global result cache, so what a call returns may depend on the calls
+# before it.  Every sequence of <= 2 (thorough 3) calls over the alphabet of active-graph lists below, same text, same
+# configuration, same store, result cache ON (each kind the stage offers).
+ACTIVE_ALPHA = [("g", "h"), ("g",), ("h", "g"), ("h",)]
+CACHE_KINDS_QUICK = [("lru", 64), ("bytes", 64)]
+CACHE_KINDS_THOROUGH = CACHE_KINDS_QUICK + [("lru", 1), ("bytes", 1)]      # 1 entry: the two graphs evict each other
 
 
 def world_graphs(edges, world, nodes=None):
@@ -455,10 +496,17 @@ def ref_one_graph(nodes, edges, text, P):
             if isinstance(x, str) and x:
                 kws.append((x.lower(), nid))
     seeds = []
+    holders = {}
     for kw, nid in sorted(kws, key=lambda p: p[0]):      # documented: stable seeding order = sorted label order
-        if kw in t and nid not in seeds:
-            seeds.append(nid)
+        if kw in t:
+            holders.setdefault(kw, set()).add(nid)
+            if nid not in seeds:
+                seeds.append(nid)
     R["seeds"] = list(seeds)
+    if P["dedupe"] and any(len(h) > 1 for h in holders.values()):
+        # two different nodes hold the same matched keyword: "sorted label order" does not order them, and the dedupe
+        # window (alone) remembers the seeding order
+        R["fragile"] = True
     if not seeds:
         return R
     NB, L, Q, RAD, relax = P["node_budget"], P["L"], P["Q"], P["radius"], P["relax"]
@@ -563,7 +611,7 @@ def make_scene(edges, text, world, nodes=None):
     """everything the statement-level oracle needs that depends only on (graph, text, world)"""
     graphs = world_graphs(edges, world, nodes)
     sc = {"graphs": graphs, "active": [g[0] for g in graphs], "node_graph": {}, "seeds": {}, "dist": {}, "edges": list(edges),
-          "text": text}
+          "text": text, "nodes": nodes}
     for gid, nodes, ged in graphs:
         for nid, _l, _t in nodes:
             sc["node_graph"][nid] = gid
@@ -646,6 +694,8 @@ def judge(sc, dev, P, res, store, before, state):
     """all three oracle layers; returns (violations [(sig, what)], outcome class (int), nontrivial)"""
     V = []
     desc = " on edges=%s text=%r cfg=%s" % ([list(e) for e in sc["edges"]], sc["text"], dev)
+    if sc.get("nodes") is not None:
+        desc += " nodes(id,label,tags)=%s" % ([list(n) for n in sc["nodes"]],)
     if isinstance(res, Exception):
         return [("raises:%s" % type(res).__name__, "t1_propagate raised %r%s" % (res, desc))], -1, True
     m = getattr(res, "metrics", None)
@@ -851,6 +901,157 @@ def _warm_worker(chunk, st: Stats, tier):
                                      dict(_case(edges, text, dev, nodes), warm=order))
 
 
+def _call(ctx, store, active, text):
+    try:
+        return t1mod.t1_propagate(ctx, {"store": store, "active_graphs": list(active)}, text)
+    except Exception as e:  # noqa
+        return e
+
+
+def history_space(tier: str):
+    hmax = 3 if tier == "thorough" else 2
+    return [h for n in range(2, hmax + 1) for h in itertools.product(range(len(ACTIVE_ALPHA)), repeat=n)]
+
+
+def _replayed_counters_ok(res, warm, cold, ai):
+    """A call that was (partly) served from the result cache performed less work than the cold call; the statement does
+    not say whether its counters replay the cached work or count the work of this call.  Both readings are accepted,
+    per graph: with cache hits reported, the six counters may be the sum of the cold single-graph counters over any
+    subset of the active graphs.  The deltas must be the cold ones in any case."""
+    m = getattr(res, "metrics", None)
+    if warm[0] == "exc" or cold[ai][0] == "exc" or warm[0] != cold[ai][0] or not isinstance(m, dict):
+        return False
+    hits = m.get("cache_hits", 0)
+    if not (isinstance(hits, int) and hits > 0):
+        return False
+    per = []
+    for gid in ACTIVE_ALPHA[ai]:
+        c = cold[ACTIVE_ALPHA.index((gid,))]
+        if c[0] == "exc":
+            return False
+        per.append(dict(c[1]))
+    if any(not isinstance(p.get(k), int) for p in per for k in COUNTERS):
+        return False
+    for mask in itertools.product((0, 1), repeat=len(per)):
+        tot = tuple((k, sum(p[k] for p, on in zip(per, mask) if on)) for k in COUNTERS)
+        if tot == warm[1]:
+            return True
+    return False
+
+
+def run_history(sc, dev, kind, entries, hist, cold=None, store=None):
+    """one call history on one store with the result cache on; every call's deltas and six counters must equal those of
+    the same call made cold (fresh store, cache off).  Returns (violations, n_calls, cold)"""
+    text = sc["text"]
+    if cold is None:
+        cold = {}
+    ctx_cold, P = make_ctx(dev)
+    ctx_w, _P = make_ctx(dev, cache=kind, cache_entries=entries)
+    n_calls = 0
+    for ai in range(len(ACTIVE_ALPHA)):
+        if ai not in cold:
+            reset_caches()
+            OBS.reset(P["node_budget"])
+            cold[ai] = _t1_view(_call(ctx_cold, build_store(sc["graphs"]), ACTIVE_ALPHA[ai], text))
+            n_calls += 1
+    if store is None:
+        store = build_store(sc["graphs"])
+    before = snap_store(store)
+    where = " on edges=%s text=%r cfg=%s" % ([list(e) for e in sc["edges"]], text, dev)
+    if sc.get("nodes") is not None:
+        where += " nodes(id,label,tags)=%s" % ([list(n) for n in sc["nodes"]],)
+    V = []
+    reset_caches()
+    OBS.reset(P["node_budget"])
+    try:
+        for pos, ai in enumerate(hist):
+            res = _call(ctx_w, store, ACTIVE_ALPHA[ai], text)
+            warm = _t1_view(res)
+            n_calls += 1
+            if warm != cold[ai] and not _replayed_counters_ok(res, warm, cold, ai):
+                ids = [d.get("id") if isinstance(d, dict) else None for d in (getattr(res, "graph_deltas", None) or [])]
+                if warm[0] == "exc":
+                    sig = "call-history:raises:%s" % warm[1]
+                elif len(set(map(repr, ids))) != len(ids):
+                    sig = "call-history:node-reported-twice"
+                elif cold[ai][0] == "exc" or warm[0] != cold[ai][0]:
+                    sig = "call-history:deltas-differ-from-cold"
+                else:
+                    sig = "call-history:counters-differ-from-cold"
+                V.append((sig, "call %d of the history %s (active graphs per call; %s cache, %d entries) returned %s, the same call cold returns %s%s"
+                          % (pos + 1, [list(ACTIVE_ALPHA[i]) for i in hist], kind, entries, warm, cold[ai], where)))
+                break
+    finally:
+        reset_caches()
+    if snap_store(store) != before:
+        V.append(("store:modified", "graph store differs after the call history %s (%s cache)%s" % ([list(ACTIVE_ALPHA[i]) for i in hist], kind, where)))
+    return V, n_calls, cold
+
+
+def _history_worker(chunk, st: Stats, tier):
+    install()
+    devs = [dict(d, world="two") for d in enum_devs(tier == "thorough", 1) if "world" not in d]
+    kinds = CACHE_KINDS_THOROUGH if tier == "thorough" else CACHE_KINDS_QUICK
+    hists = history_space(tier)
+    for edges, nodes, texts in chunk:
+        for text in texts:
+            sc = make_scene(edges, text, "two", nodes)
+            for dev in devs:
+                cold = {}
+                store = None
+                for kind, entries in kinds:
+                    for hist in hists:
+                        if store is None:
+                            store = build_store(sc["graphs"])
+                        V, n_calls, cold = run_history(sc, dev, kind, entries, hist, cold, store)
+                        if V:
+                            store = None           # never reuse a store after a failure
+                        st.add("transitions", n_calls)
+                        st.add("validated", len(hist) if not V else 1)
+                        st.add("states")
+                        st.add("history_cases")
+                        st.distinct("outcomes", ("history", bool(V), tuple(cold[ai][0] == "[]" for ai in hist)))
+                        if any(cold[ai][0] not in ("[]", "exc") for ai in hist[1:]):
+                            st.add("nontrivial")
+                        for sig, what in V:
+                            st.violation(sig, what, dict(_case(edges, text, dev, nodes), history=[list(ACTIVE_ALPHA[i]) for i in hist],
+                                                         cache=[kind, entries]))
+
+
+def _keywords_worker(chunk, st: Stats, tier):
+    install()
+    devs = [(dev,) + make_ctx(dev) for dev in enum_devs(tier == "thorough", 1)]
+    if tier == "thorough":
+        graphs = enum_graphs(0, [1.0], ["supports"]) + enum_graphs(1, [-0.5, 1.0], ["supports", "zzz"])
+    else:
+        graphs = enum_graphs(0, [1.0], ["supports"]) + enum_graphs(1, [1.0], ["supports"])
+    for nodes in chunk:
+        for edges in graphs:
+            stores = {}
+            for text in KW_TEXTS:
+                scenes = {w: make_scene(edges, text, w, nodes) for w in ("one", "two")}
+                for dev, ctx, P in devs:
+                    world = P["world"]
+                    sc = scenes[world]
+                    sb = stores.get(world) or (None, None)
+                    res, store, before, state = execute(sc, ctx, P, *sb)
+                    st.add("transitions")
+                    st.add("states")
+                    st.add("keyword_cases")
+                    V, outcome, nontrivial = judge(sc, dev, P, res, store, before, state)
+                    st.add("validated")
+                    st.distinct("outcomes", ("kw", outcome))
+                    if len(sc["seeds"]["g"]) > 1 or nontrivial:
+                        st.add("nontrivial")
+                    if V:
+                        case = _case(edges, text, dev, nodes)
+                        for sig, what in V:
+                            st.violation(sig, what, case)
+                        stores.pop(world, None)
+                    else:
+                        stores[world] = (store, before)
+
+
 def _arms_worker(chunk, st: Stats, tier):
     install()
     devs = [(dev,) + make_ctx(dev) for dev in enum_devs(tier == "thorough", 2 if tier == "thorough" else 1)]
@@ -936,7 +1137,7 @@ def run(run: Run) -> None:
                 "{-.5,0,.5,1} x relations {supports,associates,unknown}, every 2-edge multigraph incl. doubled pairs and both adjacency "
                 "orders of same-source edges over " + ("the same edge alphabet" if run.thorough else "weights {-.5,1} x {supports,unknown}")
                 + (", plus every 3-edge multigraph over weights {-.5,1} x {supports,unknown} with <=1 config deviation" if run.thorough else "")
-                + " x 5 texts (no seed, label, substring + 2 labels, tag, all three) x every config with <=2 deviations over 11 dimensions; "
+                + " x 5 texts (no seed, label, substring + 2 labels, tag, all three) x every config with <=2 deviations over %d dimensions; " % len(DIMS) +
                 "non-trivial = at least one propagation or cap/budget hit, or pops cut below the number of seeds")
     run.pmap(_worker, list(range(len(space))), extra=(tier,))
     run.notes["arm_graphs"] = len(arm_graphs())
@@ -944,7 +1145,32 @@ def run(run: Run) -> None:
     warm_items = [(g, None, TEXTS[1:]) for g, _k in space if len(g) <= 1] + [(g, ARM_NODES, ARM_TEXTS[:1]) for g in arm_graphs()[::7]]
     run.notes["warm_scenes"] = len(warm_items)
     run.pmap(_warm_worker, warm_items, extra=(tier,))
-    run.assume("sequential T1 path only (perf.parallel off; the parallel fan-out is C09's subject); stage cache disabled (t1.cache.enabled=false, perf cache sizes 0) — cache transparency is C05")
+    kw_sets = keyword_nodesets()
+    run.notes["keyword_holder_nodesets"] = len(kw_sets)
+    run.pmap(_keywords_worker, kw_sets, extra=(tier,))
+    hist_items = ([(g, None, TEXTS[1:]) for g in enum_graphs(0, [1.0], ["supports"]) + enum_graphs(1, [1.0], ["supports"])]
+                  + [(g, ARM_NODES, ARM_TEXTS[:1]) for g in arm_graphs()[::7]])
+    run.notes["history_scenes"] = sum(len(t) for _g, _n, t in hist_items)
+    run.notes["call_histories"] = len(history_space(tier))
+    run.notes["history_cache_kinds"] = [list(k) for k in (CACHE_KINDS_THOROUGH if run.thorough else CACHE_KINDS_QUICK)]
+    run.pmap(_history_worker, hist_items, extra=(tier,))
+    run.rule += ("; plus keyword holders: every assignment of labels {apple, Apple, pear} to the 3 nodes x tag lists {none, [APPLE], [Pear, pear]} on "
+                 "one node x {none, [apple]} on another (162 node sets: keywords unique / shared by 2-3 nodes as label or tag / doubled on one "
+                 "node) x " + ("<=1-edge graphs over weights {-.5,1} x {supports,unknown}" if run.thorough else "<=1-edge graphs (weight 1, supports)")
+                 + " x 3 texts x every config with <=1 deviation, judged by the same three oracle layers"
+                 "; plus call histories: every sequence of " + ("2..3" if run.thorough else "2") + " calls over the active-graph lists "
+                 "{[g,h],[g],[h,g],[h]} on one store with the result cache ON (" + ("lru and bytes, 64 and 1 entries" if run.thorough else "lru and bytes, 64 entries")
+                 + "), same text and config (<=1 deviation, two graphs), <=1-edge graphs (weight 1, supports) x 4 seeding texts + 10 arm graphs: "
+                 "each call's deltas must equal those of the same call made cold, and so must its six counters (a call reporting cache "
+                 "hits may instead omit the cached graphs' work)")
+    run.assume("sequential T1 path only (perf.parallel off; the parallel fan-out is C09's subject); the stage result cache is disabled in the "
+               "single-call legs (t1.cache.enabled=false, perf cache sizes 0) and ON in the warm-cache and call-history legs, where the oracle "
+               "is the differential twin 'same call, cold' on graph_deltas and the six work counters only (max_delta, cache_* and perf "
+               "counters of a cache hit are left to C05); in the call-history leg a call that reports cache hits may also carry the "
+               "counters of just the graphs it really walked (any per-graph subset sum of the cold counters) - the statement does not "
+               "say whether a hit replays or omits the cached work")
+    run.assume("nodes that hold the same matched keyword are seeded in an order the documentation does not fix; layer (iii) is therefore not "
+               "evaluated where that order matters (perf.t1.dedupe_window set and a matched keyword held by two nodes)")
     run.assume("an edge whose relation is missing from t1.edge_type_mult spreads with multiplier 0.6 (the 'associates' value; 'associates' is the store's default relation); the statement does not name the fallback")
     run.assume("activation values are not part of T1Result (deltas carry ids only); the rule weight x multiplier x decay(hop distance) is observed through the accumulator/heap proxies and, black-box, through touched sets, counters and max_delta")
     run.assume("layer (iii) pins the pop order (larger |contribution|, then node id, then signed value), the seeding order (sorted lower-cased label/tag), 'stop at once when relax_cap is reached' and the frontier cap keeping the best entries; it is evaluated on cases that passed layers (i)/(ii), not for relax_cap=0, and not where a reference decision hinges on a difference < 1e-12")
@@ -952,14 +1178,26 @@ def run(run: Run) -> None:
     run.assume("engine Config objects with every t1.* key set explicitly (incl. t1.decay, relax_cap, iter_cap_layers as the stage reads them); decay parameters fixed per mode: exp_floor(rate .6, floor .05), attn_quad(alpha .8)")
 
 
+def _case_nodes(case):
+    """node set of a stored case; None for the default NODES"""
+    nodes = case.get("nodes")
+    if nodes is None or [list(n) for n in nodes] == [[i, l, t] for i, l, t in NODES]:
+        return None
+    return [(i, l, (list(t) if t is not None else None)) for i, l, t in nodes]
+
+
 def replay(case):
+    nodes = _case_nodes(case)
     if case.get("warm"):
         st = Stats()
-        nodes = case.get("nodes")
-        nd = None if [n[0] for n in nodes] == [n[0] for n in NODES] else [(i, l, t) for i, l, t in nodes]
-        _warm_worker([([tuple(e) for e in case["edges"]], nd, [case["text"]])], st, "thorough")
+        _warm_worker([([tuple(e) for e in case["edges"]], nodes, [case["text"]])], st, "thorough")
         return [(sg, w) for sg, (w, _c) in st.viol.items()]
-    nodes = case.get("nodes")
-    if nodes is not None and [n[0] for n in nodes] == [n[0] for n in NODES]:
-        nodes = None
+    if case.get("history"):
+        install()
+        edges = [tuple(e) for e in case["edges"]]
+        sc = make_scene(edges, case["text"], "two", nodes)
+        hist = [ACTIVE_ALPHA.index(tuple(a)) for a in case["history"]]
+        kind, entries = case["cache"]
+        V, _n, _cold = run_history(sc, dict(case["cfg"]), kind, int(entries), hist)
+        return V
     return check_case(case["edges"], case["text"], case["cfg"], nodes)
